@@ -39,9 +39,13 @@ CONSTANTS Kinds,          \* subset of {"tdpos", "xpoa", "single"} explored
           XpoaNs,         \* XPoA validator-set sizes (periods and block numbers as for TDPoS)
           InitMs, InitRems,   \* TDPoS init timestamp = InitMs ms + a remainder (ns) from InitRems
           NTerms,         \* the clock covers this many terms
+          ChainPeriods,   \* validator-set scenarios (chains that record validator sets) are explored for these periods,
+          Starts,         \* these start heights of the consensus instance ({} = no scenarios),
+          NodeAts,        \* and the verifying node constructed on the genesis block ("genesis") / on the whole chain ("tip")
           KeepHist,       \* TRUE: record the history (generation, trace validation); FALSE: model checking
           KF_TdposPreInit,    \* known-finding deviations: TRUE lets trace validation accept, besides the IDEAL
-          KF_XpoaNegativeTs   \* observation, what the code is known to do instead (ACTUAL = IDEAL + these disjuncts)
+          KF_XpoaNegativeTs,  \* observation, what the code is known to do instead (ACTUAL = IDEAL + these disjuncts)
+          KF_TdposTermSetOffset
 
 VARIABLES cfg,      \* the configuration under which the clock runs
           now,      \* the instant (ns) currently observed
@@ -55,6 +59,18 @@ Ms == 1000000
 
 (* Go's integer division truncates toward zero *)
 TDiv(a, b) == IF a >= 0 THEN a \div b ELSE -((-a) \div b)
+
+-----------------------------------------------------------------------------
+(* Validator sets are duplicate-free sequences of validator numbers; the configured initial set is   *)
+(* <<1..n>>.  c.rec[h+1] is the set recorded in the contract storage as of the block of height h    *)
+(* (what a snapshot at that block reads; <<>> = nothing recorded yet), for h = 0..tip of the chain   *)
+(* the verifying node holds.  c.hgt is the height of the candidate block, c.start the start height  *)
+(* of the consensus instance, c.nodeAt the tip height at which the verifying node was constructed   *)
+(* (which fixes the node's own current set - never consulted by the IDEAL acceptance).              *)
+Iota(n) == [i \in 1..n |-> i]
+Members(f) == {f[i] : i \in DOMAIN f}
+OnChain(c, h) == h >= 0 /\ h < Len(c.rec)
+RecOrInit(c, h) == IF OnChain(c, h) /\ c.rec[h + 1] # <<>> THEN c.rec[h + 1] ELSE Iota(c.n)
 
 -----------------------------------------------------------------------------
 (* TDPoS: tdposSchedule.minerScheduling, line by line *)
@@ -83,16 +99,54 @@ TdposSched(c, ts, dv) ==
 
 (* tdposConsensus.CheckMinerMatch step 1: "blockPos < 0 || blockPos >= blockNum || pos >= proposerNum" *)
 TdposValid(c, s) == ~(s.bp < 0 \/ s.bp >= c.blockNum \/ s.pos >= c.n)
-(* ... then wantProposers[pos] must be the block's proposer (validator set = the configured one)   *)
+
+(* The validators of a term (tdposSchedule.CalOldProposers for a candidate block on top of the tip). *)
+(* c.bts[k] is the timestamp of the stored block of height k (1..tip); a stored block carries the    *)
+(* term of its timestamp in its consensus storage.  The set of a term is the election result (top   *)
+(* proposer_num of the votes; here: the recorded sequence) as of three blocks below the tip the      *)
+(* chain had when the term began (CompeteMaster: UpdateProposers(tip height) at the first instant   *)
+(* of a term, kept for the whole term), the initial set while that tip is below start + 3.          *)
+TipH(c) == Len(c.bts)
+BlkTerm(c, k) == TdposSchedCode(c, c.bts[k]).term
+TipTerm(c) == BlkTerm(c, TipH(c))
+(* calTopKNominator(x): "height < startHeight+3 -> initValidators", else the snapshot of block x-3 *)
+TopKAt(c, x) == IF x < c.start + 3 THEN Iota(c.n) ELSE RecOrInit(c, x - 3)
+FirstOfTerm(c, t) == CHOOSE k \in 1..TipH(c) : BlkTerm(c, k) = t /\ \A j \in 1..(k - 1) : BlkTerm(c, j) # t
+(* The property is silent about a candidate whose timestamp lies in a term before the term of the   *)
+(* block it extends (the code judges it by the newest election result); such instants are not       *)
+(* compared.                                                                                        *)
+Silent(c, ts) == c.kind = "tdpos" /\ TipH(c) > 0 /\ ts >= c.init /\ TdposSchedCode(c, ts).term < TipTerm(c)
+(* IDEAL: a candidate in the tip's term t is judged by the set of t: the tip when t began was the    *)
+(* block below the first block of t.  The code (calHisValidators) takes the snapshot three below    *)
+(* the first block of t itself, i.e. one block later than the producers of t did (deviation         *)
+(* KF_TdposTermSetOffset).  A candidate in a later term begins that term on the current tip.         *)
+TdposVS(c, ts, dv) ==
+  IF c.hgt < c.start + 3 \/ TipH(c) = 0 THEN Iota(c.n)               \* "height < s.startHeight+3"
+  ELSE IF TdposSched(c, ts, dv).term = TipTerm(c)
+       THEN LET f == FirstOfTerm(c, TipTerm(c)) IN
+            IF dv /\ KF_TdposTermSetOffset THEN TopKAt(c, f) ELSE TopKAt(c, f - 1)
+       ELSE TopKAt(c, TipH(c))
+(* ... then wantProposers[pos] must be the block's proposer                                          *)
 TdposClass(c, v, ts, dv) ==
   LET s == TdposSched(c, ts, dv) IN
-  IF ~TdposValid(c, s) THEN "rej" ELSE IF s.pos + 1 = v THEN "ok" ELSE "rej"
+  IF ~TdposValid(c, s) THEN "rej" ELSE IF TdposVS(c, ts, dv)[s.pos + 1] = v THEN "ok" ELSE "rej"
 
 -----------------------------------------------------------------------------
-(* XPoA: xpoaSchedule.minerScheduling(timestamp, length) *)
+(* XPoA: the validator set in force for a candidate block of height c.hgt                           *)
+(*   GetLocalValidates: "targetHeight := round - 1; if targetHeight <= 3 { return initValidators }"  *)
+(*   getValidates:      "if height < startHeight+3 { return initValidators }" ... QueryBlockByHeight *)
+(*                       (height - 3), snapshot at that block, nothing recorded -> initValidators    *)
+(* <<>> = the block whose snapshot is needed is not on the node's chain: no set, nobody is accepted *)
+XpoaVS(c) ==
+  IF c.hgt - 1 <= 3 \/ c.hgt - 1 < c.start + 3 THEN Iota(c.n)
+  ELSE IF ~OnChain(c, c.hgt - 4) THEN <<>>
+  ELSE RecOrInit(c, c.hgt - 4)
+XN(c) == Len(XpoaVS(c))
+
+(* xpoaSchedule.minerScheduling(timestamp, length), length = size of the set in force *)
 XpoaSchedCode(c, ts) ==
   LET T        == TDiv(ts, Ms)
-      termTime == c.period * c.n * c.blockNum
+      termTime == c.period * XN(c) * c.blockNum
       posTime  == c.period * c.blockNum
       term     == TDiv(T, termTime) + 1
       res      == T - (term - 1) * termTime
@@ -103,18 +157,19 @@ XpoaSchedCode(c, ts) ==
 (* IDEAL: the schedule starts at the epoch; a negative timestamp entitles nobody.  The code's       *)
 (* truncating division mirrors the schedule around 0 (deviation KF_XpoaNegativeTs).               *)
 XpoaSched(c, ts, dv) ==
-  IF ts < 0 /\ ~(dv /\ KF_XpoaNegativeTs) THEN [term |-> 0, pos |-> 0, bp |-> -1] ELSE XpoaSchedCode(c, ts)
+  IF XN(c) = 0 \/ (ts < 0 /\ ~(dv /\ KF_XpoaNegativeTs)) THEN [term |-> 0, pos |-> 0, bp |-> -1] ELSE XpoaSchedCode(c, ts)
 
 (* GetLocalLeader: "blockPos < 0 || blockPos > blockNum || pos >= len(validators)" -> "" *)
-XpoaValid(c, s) == ~(s.bp < 0 \/ s.bp > c.blockNum \/ s.pos >= c.n)
+XpoaValid(c, s) == ~(s.bp < 0 \/ s.bp > c.blockNum \/ s.pos >= XN(c))
 (* CheckMinerMatch: leader (possibly "") must equal the proposer field; validators[pos] with a     *)
 (* negative pos is an index-out-of-range panic                                                    *)
 XpoaClass(c, v, ts, dv) ==
   LET s == XpoaSched(c, ts, dv) IN
-  IF ts < 0 /\ ~(dv /\ KF_XpoaNegativeTs) THEN "rej"
+  IF XN(c) = 0 THEN "rej"
+  ELSE IF ts < 0 /\ ~(dv /\ KF_XpoaNegativeTs) THEN "rej"
   ELSE IF ~XpoaValid(c, s) THEN (IF v = 0 THEN "ok" ELSE "rej")
   ELSE IF s.pos < 0 THEN "panic"
-  ELSE IF s.pos + 1 = v THEN "ok" ELSE "rej"
+  ELSE IF XpoaVS(c)[s.pos + 1] = v THEN "ok" ELSE "rej"
 
 -----------------------------------------------------------------------------
 (* single: SingleConsensus.CheckMinerMatch.  A candidate is described by                           *)
@@ -135,14 +190,79 @@ SingleClass(k) ==
 
 -----------------------------------------------------------------------------
 (* The configurations explored *)
-Cfg(kind, p, b, n, a, t, i) == [kind |-> kind, period |-> p, blockNum |-> b, n |-> n, alt |-> a, termInt |-> t, init |-> i]
-TdposBox == {Cfg("tdpos", p, b, n, a, t, InitMs * Ms + r) :
-               p \in Periods, b \in BlockNums, n \in ProposerNums, a \in 1..MaxAlt, t \in 1..MaxTermInt, r \in InitRems}
+(* A basic configuration: candidate blocks of height 2 on a chain that consists of the genesis block *)
+(* (nothing recorded: the configured initial set is in force).                                      *)
+Cfg(kind, p, b, n, a, t, i) ==
+  [kind |-> kind, period |-> p, blockNum |-> b, n |-> n, alt |-> a, termInt |-> t, init |-> i,
+   u |-> n, start |-> 1, hgt |-> 2, rec |-> <<>>, bts |-> <<>>, nodeAt |-> 0, sid |-> 0]
+(* precondition written in schedule.go: alternateInterval >= period && termInterval >= alternateInterval *)
+TdposBox == {c \in {Cfg("tdpos", p, b, n, a, t, InitMs * Ms + r) :
+                      p \in Periods, b \in BlockNums, n \in ProposerNums, a \in 1..MaxAlt, t \in 1..MaxTermInt, r \in InitRems} :
+               c.alt >= c.period /\ c.termInt >= c.alt}
 XpoaBox  == {Cfg("xpoa", p, b, n, 0, 0, 0) : p \in Periods, b \in BlockNums, n \in XpoaNs}
 SingleBox == {Cfg("single", 0, 0, 1, 0, 0, 0)}
-(* precondition written in schedule.go: alternateInterval >= period && termInterval >= alternateInterval *)
-Box == (IF "tdpos" \in Kinds THEN {c \in TdposBox : c.alt >= c.period /\ c.termInt >= c.alt} ELSE {})
-       \cup (IF "xpoa" \in Kinds THEN XpoaBox ELSE {})
+
+Tup(f) == SubSeq(f, 1, Len(f))
+NodeHeights(tip) == (IF "genesis" \in NodeAts THEN {0} ELSE {}) \cup (IF "tip" \in NodeAts THEN {tip} ELSE {})
+
+(* XPoA validator-set scenarios.  Alternatives to the initial set <<1..n>> over the universe 1..n+1: *)
+(* last member dropped / a member added at the end (size), reversed (order), 2..n+1 (membership),    *)
+(* first member dropped / a member added in front (size and order).  The chain records a different  *)
+(* one at every height start, start+1, ... (and, for start > 1, one below the start height, which    *)
+(* must never come into force); the candidate heights are the last two bootstrap heights and every  *)
+(* height whose set is one of the recorded ones, so that any error in the height of the snapshot    *)
+(* or in the bootstrap threshold changes the set in force.                                          *)
+XAlt(n) == SelectSeq(<< Tup([i \in 1..(n - 1) |-> i]), Tup([i \in 1..(n + 1) |-> i]), Tup([i \in 1..n |-> n + 1 - i]),
+                        Tup([i \in 1..n |-> i + 1]), Tup([i \in 1..(n - 1) |-> i + 1]),
+                        Tup([i \in 1..(n + 1) |-> IF i = 1 THEN n + 1 ELSE i - 1]) >>,
+                     LAMBDA x : x # <<>> /\ x # Tup(Iota(n)))
+XTip(n, st) == st + Len(XAlt(n)) + 2
+XRec(n, st) ==
+  LET A == XAlt(n)
+      k == Len(A)
+  IN Tup([j \in 1..(XTip(n, st) + 1) |->
+            LET h == j - 1 IN
+            IF h < st - 1 \/ h = 0 THEN <<>> ELSE IF h = st - 1 THEN A[k] ELSE IF h - st + 1 <= k THEN A[h - st + 1] ELSE A[k]])
+XpoaChainBox == UNION {
+  {[c EXCEPT !.u = c.n + 1, !.start = st, !.rec = XRec(c.n, st), !.hgt = h, !.nodeAt = na, !.sid = 1] :
+     h \in (st + 2)..(XTip(c.n, st) + 1), na \in NodeHeights(XTip(c.n, st))} :
+  c \in {x \in XpoaBox : x.period \in ChainPeriods}, st \in Starts}
+
+(* TDPoS validator-set scenarios.  Election results (sequences of proposer_num validators over the   *)
+(* universe 1..n+2, different from the initial set and from their neighbours) are recorded at every *)
+(* height from start - 1 on (none on the genesis block).  The chain: k1 blocks, one in the first     *)
+(* slot of each of the terms 1..k1, then k2 blocks in the first slots of term k1 + 1; the candidate  *)
+(* extends the tip.  The clock covers the tip's term (judged by the set of that term) and the two   *)
+(* following terms (the candidate would begin a term).                                              *)
+TAlt(n) == IF n = 1 THEN << <<2>>, <<3>> >>
+           ELSE << Tup([i \in 1..n |-> i + 1]), Tup([i \in 1..n |-> i + 2]), Tup([i \in 1..n |-> n + 1 - i]),
+                   Tup([i \in 1..n |-> IF i = 1 THEN n + 1 ELSE i - 1]) >>
+TRec(n, st, tip) ==
+  LET A == TAlt(n)
+      k == Len(A)
+  IN Tup([j \in 1..(tip + 1) |-> LET h == j - 1 IN IF h < st - 1 \/ h = 0 THEN <<>> ELSE A[((h - st + 1) % k) + 1]])
+SPT(c) == c.n * c.blockNum          \* slots per term
+(* the last millisecond of the slot number idx (0, 1, ... from the origin) *)
+SlotMs(c, idx) ==
+  LET term == idx \div SPT(c) + 1
+      r    == idx % SPT(c)
+      pos  == r \div c.blockNum
+      bp   == r % c.blockNum
+      termTime == c.termInt + (c.blockNum - 1) * c.n * c.period + (c.n - 1) * c.alt
+      termBegin == (c.init \div Ms) + (term - 1) * termTime + c.termInt - c.alt
+      proposerBegin == termBegin + pos * (c.alt + c.period * (c.blockNum - 1)) + c.alt - c.period
+  IN proposerBegin + bp * c.period + c.period - 1
+TBts(c, k1, k2) == Tup([j \in 1..(k1 + k2) |-> Ms * (IF j <= k1 THEN SlotMs(c, (j - 1) * SPT(c))
+                                                       ELSE SlotMs(c, k1 * SPT(c) + (j - k1 - 1)))])
+TShapes(c, st) == {<<1, 1>>} \cup {<<k1, k2>> \in ((st + 1)..(st + 4)) \X {1, 2} : k2 <= SPT(c)}
+TdposChain(c, st, sh) ==
+  {[c EXCEPT !.u = c.n + 2, !.start = st, !.rec = TRec(c.n, st, sh[1] + sh[2]), !.bts = TBts(c, sh[1], sh[2]),
+             !.hgt = sh[1] + sh[2] + 1, !.nodeAt = na, !.sid = 10 * sh[1] + sh[2]] : na \in NodeHeights(sh[1] + sh[2])}
+TdposChainBox == UNION {UNION {TdposChain(c, st, sh) : sh \in TShapes(c, st)} :
+                          c \in {x \in TdposBox : x.period \in ChainPeriods /\ x.period >= 2}, st \in Starts}
+
+Box == (IF "tdpos" \in Kinds THEN TdposBox \cup TdposChainBox ELSE {})
+       \cup (IF "xpoa" \in Kinds THEN XpoaBox \cup XpoaChainBox ELSE {})
        \cup (IF "single" \in Kinds THEN SingleBox ELSE {})
 
 Timed(c) == c.kind \in {"tdpos", "xpoa"}
@@ -151,16 +271,23 @@ Sched(c, ts) == SchedW(c, ts, FALSE)
 Valid(c, s)  == IF c.kind = "tdpos" THEN TdposValid(c, s) ELSE XpoaValid(c, s) /\ s.pos >= 0
 ClassW(c, v, ts, dv) == IF c.kind = "tdpos" THEN TdposClass(c, v, ts, dv) ELSE XpoaClass(c, v, ts, dv)
 Class(c, v, ts) == ClassW(c, v, ts, FALSE)
-Cands(c) == 0..(c.n + 1)
+(* the validator set in force for a candidate block of height c.hgt carrying timestamp ts *)
+VSW(c, ts, dv) == IF c.kind = "tdpos" THEN TdposVS(c, ts, dv) ELSE XpoaVS(c)
+VS(c, ts) == VSW(c, ts, FALSE)
+(* number of validators over which the slots of a term are laid out *)
+NV(c) == IF c.kind = "tdpos" THEN c.n ELSE XN(c)
+Cands(c) == 0..(c.u + 1)
 Key(s) == <<s.term, s.pos, s.bp>>
 
 (* configured length of a term (ms) and the schedule's origin (ns) *)
 TermTime(c) == IF c.kind = "tdpos" THEN c.termInt + (c.blockNum - 1) * c.n * c.period + (c.n - 1) * c.alt
-               ELSE c.period * c.n * c.blockNum
+               ELSE c.period * NV(c) * c.blockNum
 Origin(c) == c.init
-(* the clock: two ms before the origin (XPoA: one term and one ms before the epoch) ... NTerms terms after it *)
-StartNs(c) == IF c.kind = "tdpos" THEN ((c.init \div Ms) - 2) * Ms ELSE (0 - TermTime(c) - 1) * Ms
-EndNs(c)   == ((c.init \div Ms) + NTerms * TermTime(c) + 1) * Ms + (Ms - 1)
+(* the first term the clock visits: the tip's term if the chain has timestamped blocks (TDPoS scenarios) *)
+Term0(c) == IF c.kind = "tdpos" /\ TipH(c) > 0 THEN TipTerm(c) ELSE 1
+(* the clock: two ms before the first term visited (XPoA: one term and one ms before the epoch) ... NTerms terms *)
+StartNs(c) == IF c.kind = "tdpos" THEN ((c.init \div Ms) + (Term0(c) - 1) * TermTime(c) - 2) * Ms ELSE (0 - TermTime(c) - 1) * Ms
+EndNs(c)   == ((c.init \div Ms) + (Term0(c) - 1 + NTerms) * TermTime(c) + 1) * Ms + (Ms - 1)
 Offs(c) == LET r == c.init % Ms IN IF r = 0 THEN <<0, Ms - 1>> ELSE <<0, r - 1, r, Ms - 1>>
 NextSample(c, ts) ==
   LET o == ts % Ms
@@ -171,12 +298,14 @@ NextSample(c, ts) ==
 (* what is observed at an instant: the schedule triple - compared only where the property speaks,  *)
 (* i.e. when somebody is scheduled, at or after the origin; the triple the code computes for an   *)
 (* unassigned instant is its own business - and the result class of CheckMinerMatch for a         *)
-(* candidate block of every proposer carrying this timestamp                                      *)
+(* candidate block of every proposer carrying this timestamp ("nc": not compared, Silent)         *)
 NotCompared == <<-1, -1, -1>>
-Norm(c, s, ts) == IF ts >= Origin(c) /\ Valid(c, s) THEN Key(s) ELSE NotCompared
-ObsAtW(c, ts, dv) == [sched |-> Norm(c, SchedW(c, ts, dv), ts), acc |-> [i \in 1..(c.n + 2) |-> ClassW(c, i - 1, ts, dv)]]
+Norm(c, s, ts) == IF ts >= Origin(c) /\ ~Silent(c, ts) /\ Valid(c, s) THEN Key(s) ELSE NotCompared
+ObsAtW(c, ts, dv) == [sched |-> Norm(c, SchedW(c, ts, dv), ts),
+                      acc |-> [i \in 1..(c.u + 2) |-> IF Silent(c, ts) THEN "nc" ELSE ClassW(c, i - 1, ts, dv)]]
 ObsAt(c, ts) == ObsAtW(c, ts, FALSE)
-AtEvent(c, ts) == [op |-> "at", ts |-> ts, sched |-> ObsAt(c, ts).sched, acc |-> ObsAt(c, ts).acc]
+(* nv: the size of the set in force (the length the driver passes to the exported xpoa minerScheduling) *)
+AtEvent(c, ts) == [op |-> "at", ts |-> ts, nv |-> Len(VS(c, ts)), sched |-> ObsAt(c, ts).sched, acc |-> ObsAt(c, ts).acc]
 CfgEvent(c) == [op |-> "cfg", cfg |-> c]
 Log(e) == hist' = IF KeepHist THEN Append(hist, e) ELSE hist
 
@@ -195,7 +324,7 @@ Tick ==
   /\ Timed(cfg) /\ now < EndNs(cfg)
   /\ LET s == Sched(cfg, now)
          T == now \div Ms
-     IN IF ~Valid(cfg, s) THEN UNCHANGED <<last, prevEnd>>
+     IN IF Silent(cfg, now) \/ ~Valid(cfg, s) THEN UNCHANGED <<last, prevEnd>>
         ELSE IF last.def /\ last.key = Key(s) THEN last' = [last EXCEPT !.ms = T] /\ UNCHANGED prevEnd
         ELSE /\ last' = [def |-> TRUE, key |-> Key(s), ms |-> T, start |-> T]
              /\ prevEnd' = IF last.def THEN [def |-> TRUE, key |-> last.key, ms |-> last.ms] ELSE prevEnd
@@ -227,10 +356,10 @@ Reset == Start(Cfg("single", 0, 0, 1, 0, 0, 0)) /\ hist' = <<>>
 S == Sched(cfg, now)
 K == Key(S)
 T == now \div Ms
-V == Timed(cfg) /\ Valid(cfg, S)            \* somebody is scheduled now
+V == Timed(cfg) /\ ~Silent(cfg, now) /\ Valid(cfg, S)            \* somebody is scheduled now
 MinBp == IF cfg.kind = "tdpos" THEN 0 ELSE 1
 MaxBp == IF cfg.kind = "tdpos" THEN cfg.blockNum - 1 ELSE cfg.blockNum
-SlotIdx(k) == ((k[1] - 1) * cfg.n + k[2]) * cfg.blockNum + (k[3] - MinBp)
+SlotIdx(k) == ((k[1] - 1) * NV(cfg) + k[2]) * cfg.blockNum + (k[3] - MinBp)
 SameTurn(k1, k2) == k1[1] = k2[1] /\ k1[2] = k2[2]
 NewSlot == V /\ last.def /\ K # last.key   \* a slot has just begun; last describes the completed one
 (* The millisecond resolution of the TDPoS schedule needs period >= 2 ms: the first ms of a turn    *)
@@ -239,17 +368,32 @@ NewSlot == V /\ last.def /\ K # last.key   \* a slot has just begun; last descri
 Regular == cfg.kind = "xpoa" \/ cfg.period >= 2
 
 Accepted == {v \in Cands(cfg) : Class(cfg, v, now) = "ok"}
-(* at most one producer is entitled at any instant, it is a validator, and it is the one the slot names *)
-OneProducer == Timed(cfg) =>
+(* at most one producer is entitled at any instant, it is a member of the validator set in force  *)
+(* for the candidate block, and it is the one the slot names in that set                          *)
+OneProducer == (Timed(cfg) /\ ~Silent(cfg, now)) =>
   /\ Cardinality(Accepted) <= 1
-  /\ Accepted \subseteq 1..cfg.n
+  /\ Accepted \subseteq Members(VS(cfg, now))
   /\ (Accepted # {}) <=> V
-  /\ V => Accepted = {S.pos + 1}
+  /\ V => Accepted = {VS(cfg, now)[S.pos + 1]}
   /\ \A v \in Cands(cfg) : Class(cfg, v, now) \in {"ok", "rej"}
+(* a validator set in force is a duplicate-free sequence over the universe; TDPoS: of proposer_num  *)
+(* members; XPoA: empty only if the block whose snapshot is needed is not on the chain             *)
+SetInForce == Timed(cfg) =>
+  LET vs == VS(cfg, now) IN
+  /\ Members(vs) \subseteq 1..cfg.u
+  /\ Cardinality(Members(vs)) = Len(vs)
+  /\ cfg.kind = "tdpos" => Len(vs) = cfg.n
+  /\ cfg.kind = "xpoa" => (vs = <<>>) = (cfg.hgt > 4 /\ cfg.hgt - 1 >= cfg.start + 3 /\ ~OnChain(cfg, cfg.hgt - 4))
+(* bootstrap: during the first three heights of the consensus instance the configured initial set  *)
+(* is in force whatever the chain records; XPoA above them: the set recorded four blocks below     *)
+Bootstrap == Timed(cfg) =>
+  /\ cfg.hgt < cfg.start + 3 => VS(cfg, now) = Iota(cfg.n)
+  /\ (cfg.kind = "xpoa" /\ cfg.hgt = cfg.start + 3) => VS(cfg, now) = Iota(cfg.n)
+  /\ (cfg.kind = "xpoa" /\ cfg.hgt > cfg.start + 3 /\ cfg.hgt > 4 /\ OnChain(cfg, cfg.hgt - 4)) => VS(cfg, now) = RecOrInit(cfg, cfg.hgt - 4)
 (* nobody is entitled before the schedule's origin *)
 NothingBeforeOrigin == (Timed(cfg) /\ now < Origin(cfg)) => ~V
-(* the first slot ever is slot 0 of validator 1 in term 1 *)
-FirstSlot == (V /\ ~last.def /\ Regular) => K = <<1, 0, MinBp>>
+(* the first slot ever (of the first term the clock visits) is slot 0 of the first validator *)
+FirstSlot == (V /\ ~last.def /\ Regular) => K = <<Term0(cfg), 0, MinBp>>
 (* slots are visited in order, none is skipped, time never returns to an earlier slot *)
 SlotOrder == (V /\ last.def) => IF Regular THEN SlotIdx(K) \in {SlotIdx(last.key), SlotIdx(last.key) + 1}
                                  ELSE SlotIdx(K) >= SlotIdx(last.key)
@@ -266,27 +410,34 @@ SlotLength == (NewSlot /\ Regular) =>
 EndGap(k1, k2) == IF SameTurn(k1, k2) \/ cfg.kind = "xpoa" THEN cfg.period
                   ELSE IF k1[1] = k2[1] THEN cfg.alt ELSE cfg.termInt
 SlotSpacing == (NewSlot /\ Regular /\ prevEnd.def) => last.ms - prevEnd.ms = EndGap(prevEnd.key, last.key)
-(* the first slot of term 1 ends term_interval (XPoA: period) after the origin *)
+(* the first slot of the first term visited ends term_interval (XPoA: period) after the term's begin *)
 FirstSlotEnd == (NewSlot /\ Regular /\ ~prevEnd.def) =>
-  last.ms + 1 = (Origin(cfg) \div Ms) + (IF cfg.kind = "tdpos" THEN cfg.termInt ELSE cfg.period)
-(* a turn consists of slots MinBp..MaxBp; a term of the turns of validators 1..n in order *)
+  last.ms + 1 = (Origin(cfg) \div Ms) + (Term0(cfg) - 1) * TermTime(cfg) + (IF cfg.kind = "tdpos" THEN cfg.termInt ELSE cfg.period)
+(* a turn consists of slots MinBp..MaxBp; a term of the turns of the validators in force, in order *)
 TurnComplete == (NewSlot /\ Regular /\ ~SameTurn(K, last.key)) => last.key[3] = MaxBp /\ K[3] = MinBp
 TermComplete == (NewSlot /\ ~SameTurn(K, last.key)) =>
   IF K[1] = last.key[1] THEN K[2] = last.key[2] + 1
-  ELSE K[1] = last.key[1] + 1 /\ K[2] = 0 /\ last.key[2] = cfg.n - 1
+  ELSE K[1] = last.key[1] + 1 /\ K[2] = 0 /\ last.key[2] = NV(cfg) - 1
 (* the schedule repeats with the configured term length *)
-TermPeriodic == (Timed(cfg) /\ now >= Origin(cfg)) =>
+TermPeriodic == (Timed(cfg) /\ now >= Origin(cfg) /\ NV(cfg) > 0) =>
   LET s2 == Sched(cfg, now + TermTime(cfg) * Ms) IN
-  /\ Valid(cfg, s2) = V
+  /\ Valid(cfg, s2) = Valid(cfg, S)
   /\ s2.term = S.term + 1
-  /\ V => (s2.pos = S.pos /\ s2.bp = S.bp)
+  /\ Valid(cfg, S) => (s2.pos = S.pos /\ s2.bp = S.bp)
 (* direct statement of the shares, evaluated once per configuration (at the clock's first instant):  *)
-(* in every term every validator owns exactly block_num slots and nobody else owns any            *)
-SlotsOf(t, v) == {Key(Sched(cfg, m * Ms)) : m \in {x \in (Origin(cfg) \div Ms)..(EndNs(cfg) \div Ms) :
-                       LET s == Sched(cfg, x * Ms) IN Valid(cfg, s) /\ s.term = t /\ s.pos + 1 = v}}
-Shares == (Timed(cfg) /\ now = StartNs(cfg)) =>
-  \A t \in 1..NTerms : \A v \in 1..cfg.n :
-      Cardinality(SlotsOf(t, v)) = IF Regular THEN cfg.blockNum ELSE cfg.blockNum - 1
+(* in every term the clock visits one validator set is in force, every member of it owns exactly    *)
+(* block_num slots - those of its position in the set - and nobody else owns any                   *)
+WalkMs == (StartNs(cfg) \div Ms + 2)..(EndNs(cfg) \div Ms)
+TermMs(t) == {m \in WalkMs : LET s == Sched(cfg, m * Ms) IN m * Ms >= Origin(cfg) /\ ~Silent(cfg, m * Ms) /\ Valid(cfg, s) /\ s.term = t}
+SlotsOf(t, v) == {Key(Sched(cfg, m * Ms)) : m \in {x \in TermMs(t) : Class(cfg, v, x * Ms) = "ok"}}
+Shares == (Timed(cfg) /\ now = StartNs(cfg) /\ NV(cfg) > 0) =>
+  \A t \in Term0(cfg)..(Term0(cfg) + NTerms - 1) :
+    /\ Cardinality({VS(cfg, m * Ms) : m \in TermMs(t)}) <= 1
+    /\ \A vs \in {VS(cfg, m * Ms) : m \in TermMs(t)} :
+         \A v \in Cands(cfg) :
+            /\ v \in Members(vs) => /\ Cardinality(SlotsOf(t, v)) = IF Regular THEN cfg.blockNum ELSE cfg.blockNum - 1
+                                  /\ \A k \in SlotsOf(t, v) : vs[k[2] + 1] = v
+            /\ v \notin Members(vs) => SlotsOf(t, v) = {}
 (* period = 1 ms (TDPoS): slot 0 of every turn is empty, everything else as above *)
 OneMsPeriod == (V /\ ~Regular) => K[3] >= 1
 
